@@ -55,7 +55,9 @@ func (h *fragHandler) Handle(ctx context.Context, call *tchannel.InboundCall) {
 		tag = cmd["tag"]
 	}
 	w.event("handler-enter", "%s on %s rp=%d err=%v", tag, h.n.Name, rp, errStr(err))
-	defer func() { obs.ExitEv = w.event("handler-exit", "%s on %s resperr=%v", tag, h.n.Name, errStr(obs.RespErr)) }()
+	defer func() {
+		obs.ExitEv = w.event("handler-exit", "%s on %s resperr=%v", tag, h.n.Name, errStr(obs.RespErr))
+	}()
 	if err != nil {
 		obs.ReadErr = err
 		if rp == 1 {
